@@ -815,6 +815,36 @@ impl World for TemplateExport {
             if !nums.contains(&n) {
                 return Some(Violation::new(format!("template-export-misses-parameter template={tname} parameter=termination"), format!("{tname}: the termination bound {n} does not occur in the serialised configuration")));
             }
+            // configurations that differ only in the identifier of a component differ in structure
+            {
+                use crate::tw::problems::RealP;
+                use mahf::identifier::{Global, A, B};
+                let ron_of = |cfg: mahf::Configuration<RealP>| -> Result<String, String> {
+                    let path = scratch_dir().join("identifier.ron");
+                    cfg.to_ron(&path).map_err(|e| format!("{e:#}"))?;
+                    let t = std::fs::read_to_string(&path).map_err(|e| e.to_string())?;
+                    let _ = std::fs::remove_file(&path);
+                    Ok(t)
+                };
+                let texts = [
+                    ron_of(mahf::Configuration::builder().evaluate_with::<Global>().build()),
+                    ron_of(mahf::Configuration::builder().evaluate_with::<A>().build()),
+                    ron_of(mahf::Configuration::builder().evaluate_with::<B>().build()),
+                    ron_of(mahf::Configuration::builder().evaluate_with::<A>().build()),
+                ];
+                match texts {
+                    [Ok(g), Ok(a), Ok(b), Ok(a2)] => {
+                        bump(&mut out.counters, "probe:compared configurations that differ in an identifier", 1);
+                        if g == a || a == b || g == b {
+                            return Some(Violation::new("config-export-not-injective identifiers", "evaluation steps under the identifiers Global, A and B do not all serialise differently".to_string()));
+                        }
+                        if a != a2 {
+                            return Some(Violation::new("config-export-not-repeatable identifiers", "the same configuration serialised twice gives two texts".to_string()));
+                        }
+                    }
+                    _ => return Some(Violation::new("config-not-serialisable reason=identifier", "an evaluation step under an identifier does not serialise".to_string())),
+                }
+            }
             match template_ron(case, true) {
                 Ok(t2) if t2 == text => {}
                 _ => return Some(Violation::new(format!("template-export-clone-differs template={tname}"), format!("{tname}: a clone serialises differently"))),
